@@ -14,7 +14,9 @@ def run(c):
               "upstream that reads m frames, stalls and resets = write error in the middle / towards the end of the batch with "
               "duplicate, order and bounded-in-flight-loss checks, an upstream that stops reading WITHOUT closing = the sender's write "
               "deadline (WriteTimeout 3 s, budget 30 s) must end the blocked write, then reconnect and forward, a primary address pool "
-              "with 1-3 dead addresses (connection refused) around one live upstream = reconnect must go round the pool, budget 16 s); "
+              "with 1-3 dead addresses (connection refused) around one live upstream = reconnect must go round the pool, budget 16 s, "
+              "per-connection upstream scripts R*B = 0-2 connections reset right after the handshake (write error within the deadline-"
+              "refresh period), then a black-hole connection filled with large packets, then healthy + marker burst, budget 30 s); "
               "scenarios rotate with "
               "the trial index. Non-trivial = the case contains a batch timeout "
               "that has to release a partial batch / an idle tail after a partial batch, a failover, a both-buffers-full drop, a write "
@@ -73,14 +75,17 @@ META = {
              "to a successful write [never_stuck, flush_within_one_timeout, prompt_even_if_idle_partial]; a failed write gives up exactly "
              "the packet being written and the callback's return value makes pop resume right after it [write_error_skips_exactly_one, "
              "callback_contract]; (reconnection) addressPool.pick advances round-robin, so any len(addrs) consecutive reconnect attempts dial "
-             "every address of the pool [pick_kth, pick_visits_all]; (stalled upstream) with the fixed deadline logic a sender inside pop always has a write deadline armed, "
-             "whose expiry ends a blocked write with exactly one packet given up [stalled_write_released]. Counter-examples by decide for the "
-             "code before each fix: timer callback without Broadcast (stuck after idle tail), deadline never armed (stuck in WriteTo)."),
+             "every address of the pool [pick_kth, pick_visits_all]; (stalled upstream) sendLoop's deadline bookkeeping is modelled (writeDeadline zero/fresh/aged, refresh at the loop "
+             "top, reset after reconnect, passing time): for every history every write happens on a connection that carries a write "
+             "deadline and the bookkeeping is non-zero only if the current connection has one [write_always_armed]; the expiry ends a "
+             "blocked write with exactly one packet given up [stalled_write_released]. Counter-examples by decide for the "
+             "code before each fix: timer callback without Broadcast (stuck after idle tail), deadline never armed (stuck in WriteTo), bookkeeping "
+             "not reset on the write-error path (seeded C31-r3-2: next connection unarmed until the stale value has aged)."),
     "note": ("Partial. Not proved: real-time lengths (batch timer 1 s, WriteTimeout, write duration) - measured with 10x budgets; sendLoop's "
              "reconnect loop (ReconnectDelay, DialTimeout, address rotation) and TCP - exercised end to end only; scheduler fairness is the "
              "hypothesis 'the forced moves happen'; interleavings inside a critical section and the Go memory model are trusted. The write-"
              "deadline layer (PoolD/stepD) has no step-level correspondence (sendLoop cannot be single-stepped): it is tied to the code by "
-             "live scenario 6 only. The model is the code after fix 26657431 (swap timeout wakes sender) and fix 18236950 "
+             "live scenarios 6 and 8 only. The model is the code after fix 26657431 (swap timeout wakes sender) and fix 18236950 "
              "(sendLoop arms the write deadline: `writeDeadline.IsZero() || ...`); on their parents the check reports "
              "sig=sender-sleeps-through-batch-timeout / sig=stalled-upstream-blocks-sender with replays on the real code."),
     "design_ref": "DESIGN.md §6 C31",
